@@ -613,6 +613,37 @@ let run_bfx = function
 
 
 (* bcwf|regs|fuse|bc-text -> ok | reject <rule> *)
+(* tv|w|fuse|ir|bc|cert : certificate checker of Engines/TV.v.  cert = sequence of
+   "L head back <facts>" | "F <facts>", facts = nC (k expr)* nD k* nT (t expr)* nNZ expr* *)
+let parse_facts (t : toks) : facts =
+  let nc = ti t in
+  let c = List.init nc (fun _ -> let k = tz_ t in let e = parse_expr t in (k, e)) in
+  let nd = ti t in
+  let d = List.init nd (fun _ -> tz_ t) in
+  let nt = ti t in
+  let tt = List.init nt (fun _ -> let k = tz_ t in let e = parse_expr t in (k, e)) in
+  let nn = ti t in
+  let nz = List.init nn (fun _ -> parse_expr t) in
+  { f_c = c; f_d = d; f_t = tt; f_nz = nz }
+let parse_certs (s : Stdlib.String.t) : cert list =
+  let t = toks_of s in
+  let rec go acc =
+    match t.l with
+    | [] -> List.rev acc
+    | _ ->
+      (match tok t with
+       | "L" -> let h = tz_ t in let b = tz_ t in let f = parse_facts t in go (CLoop (h, b, f) :: acc)
+       | "F" -> let f = parse_facts t in go (CIf f :: acc)
+       | x -> failwith ("bad cert " ^ x)) in
+  go []
+let run_tv = function
+  | [w; fuse; ir; bc; cert] ->
+    let blk = parse_block (toks_of ir) in
+    let p = parse_bc (toks_of bc) in
+    let cs = parse_certs cert in
+    if tv_check (zs w) (fuse = "1") blk p.bp_code cs then "ok" else "reject"
+  | _ -> "ERR bad tv line"
+
 let run_bcwf = function
   | [regs; fuse; bc] ->
     let p = parse_bc (toks_of bc) in
@@ -733,7 +764,7 @@ let run_bcmem = function
      | _ -> "notdone")
   | _ -> "ERR bad bcmem line"
 
-let handlers : (Stdlib.String.t * (Stdlib.String.t list -> Stdlib.String.t)) list ref = ref [ ("cell", run_cell); ("bf", run_bf); ("inplace", run_inplace); ("ir", run_ir); ("bc", run_bc); ("x86form", run_x86form); ("x86call", run_x86call); ("x86br", run_x86br); ("x86mov", run_x86mov); ("x86limit", run_x86limit); ("liveregs", run_liveregs); ("x86frame", run_x86frame); ("bcreach", run_bcreach); ("parse", run_parse); ("bfbig", run_bfbig); ("bcmem", run_bcmem); ("formsnf", run_formsnf); ("shapes", run_shapes); ("cli", run_cli); ("bcwf", run_bcwf); ("bfx", run_bfx); ("expr", run_expr); ("svec", run_svec); ("tape", run_tape); ("rawproto", run_rawproto); ("bfcycle", run_bfcycle); ("irbig", run_irbig) ]
+let handlers : (Stdlib.String.t * (Stdlib.String.t list -> Stdlib.String.t)) list ref = ref [ ("cell", run_cell); ("bf", run_bf); ("inplace", run_inplace); ("ir", run_ir); ("bc", run_bc); ("tv", run_tv); ("x86form", run_x86form); ("x86call", run_x86call); ("x86br", run_x86br); ("x86mov", run_x86mov); ("x86limit", run_x86limit); ("liveregs", run_liveregs); ("x86frame", run_x86frame); ("bcreach", run_bcreach); ("parse", run_parse); ("bfbig", run_bfbig); ("bcmem", run_bcmem); ("formsnf", run_formsnf); ("shapes", run_shapes); ("cli", run_cli); ("bcwf", run_bcwf); ("bfx", run_bfx); ("expr", run_expr); ("svec", run_svec); ("tape", run_tape); ("rawproto", run_rawproto); ("bfcycle", run_bfcycle); ("irbig", run_irbig) ]
 
 let () =
   (try
